@@ -116,6 +116,7 @@ class Gen:
                   "dump": 3, "stat": 3, "reopen": 2, "getabsent": 2, "emptykey": 1}
         if weights:
             self.w.update(weights)
+        self.badopen = self.w.pop("badopen", 0)     # restarts sometimes try a configuration checkOptions rejects first
 
     def make_keys(self, n):
         rng = self.rng
@@ -229,7 +230,7 @@ class Gen:
             if self.rng.random() < 0.5:
                 cfg["fs"] = self.cfg["fs"]
         self.cfg = cfg
-        if self.rng.random() < 0.15:
+        if self.badopen and self.rng.random() < 0.3:
             # checkOptions: a rejected configuration neither opens nor touches nor locks the directory
             bad = dict(cfg)
             bad.update(self.rng.choice([{"fs": 0}, {"sync": 2, "bps": 0}, {"bps": (16 << 20) + 1}, {"sync": 1, "bps": 1 << 30}]))
